@@ -151,6 +151,9 @@ def ast_tables(paths):
                     for t in st.targets:
                         if isinstance(t, ast.Name) and t.id == nm:
                             tgt = st.value
+                elif isinstance(st, ast.AnnAssign) and isinstance(st.target, ast.Name) and st.target.id == nm \
+                        and st.value is not None:
+                    tgt = st.value          # an annotated assignment (`X: Set[MessageType] = {...}`) is an assignment
                 elif isinstance(st, ast.AugAssign) and isinstance(st.target, ast.Name) and st.target.id == nm:
                     mutations.append('%s:%d augmented assignment to %s' % (os.path.basename(path), st.lineno, nm))
                 elif isinstance(st, ast.Call) and isinstance(st.func, ast.Attribute) and \
